@@ -807,7 +807,7 @@ def history_distribution(sysc, rnd):
     def fam(c):
         f = c["history"]["f"]
         return ("type" if f in NAMES_TYPE or f.startswith("Q") or f == "List" else "builtin" if f in NAMES_BUILTIN
-                else "scope" if f in NAMES_SCOPE + ["q", "r", "t0", "t1"] else "plain")
+                else "scope" if f in NAMES_SCOPE + ["t0", "t1", "x", "y"] else "plain")
 
     def dist(cs):
         d = dict(cases=len(cs), by_bindings={}, by_history={}, by_name_family={}, by_profile={}, controls=0)
@@ -825,11 +825,11 @@ def history_distribution(sysc, rnd):
 
 def history_profiles_for(f):
     if f in ("len", "sum", "any", "all"):
-        return ["t", "tq", "b", "bb"]
+        return ["t", "tq", "b", "bb", "qc"]
     if f in ("ord", "chr", "int", "float", "abs", "print", "range"):
-        return ["b", "q", "bb"]
+        return ["b", "q", "bb", "qc"]
     if f in ("max", "min"):
-        return ["qq", "tq", "bb", "q"]
+        return ["qq", "tq", "bb", "q", "qc"]
     if f in NAMES_TYPE:
         return ["qc", "bb", "q", "b"]
     return ["bb", "qq", "t", "b"]
@@ -906,7 +906,7 @@ def history_random(rng, count):
         elif r < 0.85:
             f = rng.choice(NAMES_BUILTIN)
         else:
-            f = rng.choice(NAMES_SCOPE + ["q", "r", "t0", "t1"])
+            f = rng.choice(NAMES_SCOPE + ["t0", "t1", "x", "y"])
         pid = rng.choice(history_profiles_for(f) + list(profs))
         pool = list(profs[pid]["bodies"])
         rng.shuffle(pool)
@@ -1582,8 +1582,10 @@ SHADOW_FINDING = "C07-definition-named-like-builtin-ignored"
 def shadow_meaning(f):
     """the library's own meaning of a call of the name `f` (None: it has none that yields a value)"""
     import re
-    if f in ("len", "max", "min", "sum", "any", "all"):
-        return dict(len=len, max=max, min=min, sum=sum, any=any, all=all)[f]
+    if f in ("len", "max", "min", "sum", "any", "all", "abs"):
+        # (abs: only ConstantFolder knows it - a call on constants is folded; a call on anything else reaches the
+        # user's definition and is not a failing case)
+        return dict(len=len, max=max, min=min, sum=sum, any=any, all=all, abs=abs)[f]
     if f in ("ord", "chr", "int", "float"):
         return lambda v: v
     m = re.fullmatch(r"Qint(\d+)", f)
